@@ -536,6 +536,10 @@ func Tpl(tag string) corev1.PodTemplateSpec {
 	if strings.Contains(tag, "+tolnr") {
 		t.Spec.Tolerations = append(t.Spec.Tolerations, corev1.Toleration{Key: "node.kubernetes.io/not-ready", Operator: corev1.TolerationOpExists, Effect: corev1.TaintEffectNoSchedule})
 	}
+	// "X+toltaint" : template X that tolerates the harness taint verif/taint (whatever its effect)
+	if strings.Contains(tag, "+toltaint") {
+		t.Spec.Tolerations = append(t.Spec.Tolerations, corev1.Toleration{Key: "verif/taint", Operator: corev1.TolerationOpExists})
+	}
 	// "X+side" : template X with a second container "side"
 	if strings.Contains(tag, "+side") {
 		base := tag
